@@ -241,7 +241,8 @@ def CHPR.upper (r : CHPR) : List Rat :=
   if 1 < r.D ∧ 0 < r.tao ∧ r.tao < r.D then setSlice u3 r.layout.onIdx (r.layout.onIdx + min (r.D - r.tao) r.T) 0 else u3
 
 def CHPR.cost (r : CHPR) : List Rat :=
-  r.base.c ++ (if r.heat then List.zipWith (· * ·) r.conv r.base.c else []) ++
+  r.base.c ++ (if r.heat then (if r.conv.length = 1 then r.base.c.map (r.cv 0 * ·)   -- numpy broadcasts a one-element factor
+                               else List.zipWith (· * ·) r.conv r.base.c) else []) ++
     (if r.incOn then r.runningCosts else []) ++ (if r.incOn ∧ r.incStart then r.startCosts else [])
 
 /-! ## mapping -/
